@@ -1095,6 +1095,13 @@ class ValuesGen(Gen):
         ncols = r.randint(1, 3)
         nrows = r.randint(1, 4)
         types = [r.choice(["int", "int", "str", "dbl", "bool", "date"]) for _ in range(ncols)]
+        if self.o.get("big_values"):
+            # long lists around the batch-size boundaries of the lowering (exact multiples of 1024 included)
+            nrows = r.choice([1023, 1024, 1024, 1025, 2047, 2048, 2048, 2049])
+            ncols, types = 1, ["int"]
+            rows = [[(i * 7 + 3) % 11] for i in range(nrows)]
+            sql = "VALUES " + ", ".join(f"({row[0]})" for row in rows)
+            return sql, [[mv(v) for v in row] for row in rows], types
         rows = []
         for i in range(nrows):
             row = []
@@ -1111,6 +1118,8 @@ class ValuesGen(Gen):
         r = self.rng
         self.tables = self.db()
         kind = r.choice(["bare", "bare", "from", "from_where", "join", "in"])
+        if self.o.get("big_values"):
+            kind = r.choice(["bare", "from"])
         vsql, vrows, types = self.vals(first_null_ok=(r.random() < 0.15))
         if kind == "bare":
             m = {"k": "values", "rows": vrows, "order": [], "limit": -1, "offset": 0}
@@ -1339,7 +1348,7 @@ class WindowGen(Gen):
 # non-equality correlated [NOT] EXISTS over duplicate outer rows, CTEs referenced from a subquery
 # and from the main query, chained set operations with mixed quantifiers, wide integer group keys.
 class Shapes2(OptShapes):
-    SHAPES = ["pjk_skew", "having_topn", "topn_offset", "corr_exists_noneq", "corr_exists_or", "cte_multi", "cte_semi", "setop_chain", "agg_wide", "union_join_str", "samecols_semi", "limit_zero"]
+    SHAPES = ["pjk_skew", "having_topn", "topn_offset", "corr_exists_noneq", "corr_exists_or", "cte_multi", "cte_semi", "setop_chain", "agg_wide", "union_join_str", "samecols_semi", "limit_zero", "spill_join"]
 
     def case(self, cid):
         r = self.rng
@@ -1586,6 +1595,23 @@ class Shapes2(OptShapes):
         fm = {"k": "join", "kind": "inner", "l": {"k": "table", "name": "t0"}, "r": {"k": "table", "name": "t1"}, "on": on.m, "ln": 3, "rn": 3}
         proj = [both.ref(0, i) for i in sorted(r.sample(range(6), r.randint(2, 4)))]
         return self.sel(fsql, fm, proj, where=w), [t0, t1, t2]
+
+    # --- C08: joins whose build side has hundreds of distinct keys in several batches (every hash partition of the spill path gets
+    # rows, and gets them from more than one build batch) ---------------------------------------------------------------------
+    def s2_spill_join(self):
+        r = self.rng
+        n0, n1 = r.choice([130, 200, 260]), r.choice([130, 200, 260])
+        ids0 = list(range(n0)); r.shuffle(ids0)
+        ids1 = [i + r.choice([0, 0, 40]) for i in range(n1)]; r.shuffle(ids1)
+        t0 = self.tab("t0", [("k0", "int"), ("p0", "int")], [[i, (i * 3) % 7] for i in ids0], ("k0", "p0"))
+        t1 = self.tab("t1", [("k1", "int"), ("p1", "int")], [[i, (i * 5) % 11] for i in ids1], ("k1", "p1"))
+        a0, a1 = self.fresh("x"), self.fresh("x")
+        sc = Scope(self.cols(t0, a0) + self.cols(t1, a1))
+        on = self.cmp(sc.ref(0, 0), "=", sc.ref(0, 2))
+        kind = r.choice(["inner", "inner", "inner", "left"])
+        fsql = f"t0 AS {a0} {kind.upper()} JOIN t1 AS {a1} ON {on.sql}"
+        fm = {"k": "join", "kind": kind, "l": {"k": "table", "name": "t0"}, "r": {"k": "table", "name": "t1"}, "on": on.m, "ln": 2, "rn": 2}
+        return self.sel(fsql, fm, [sc.ref(0, 0), sc.ref(0, 1), sc.ref(0, 3)]), [t0, t1]
 
     # --- C45: a table that is only read under a LIMIT 0 (set-operation branch or sub-query): it still has to be there to bind -
     def s2_limit_zero(self):
